@@ -35,14 +35,42 @@ def literal_node(v):
 RANGES = [('A1', 'C3'), ('E1', 'G3'), ('I1', 'K3')]
 
 
-def observe(lib, cases, literal=True, checks=('value',), extra_env=None, ranges=False):
+def twin_value(v):
+    """the value Python confuses with v (1 == True == 1.0 and they hash alike): a cache keyed on arguments must not"""
+    t = v['t']
+    if t == 'num' and v['d'] == 1 and v['n'] in (0, 1) and not v.get('f'):
+        return {'t': 'bool', 'b': v['n'] == 1}
+    if t == 'bool':
+        return {'t': 'num', 'n': 1 if v['b'] else 0, 'd': 1}
+    if t == 'num' and v['d'] == 1 and abs(v['n']) < 10 ** 6:
+        return dict(v, f=not v.get('f'))          # the same whole number as a float / as an int
+    if t == 'arr':
+        tw = [twin_value(x) for x in v['a']]
+        return {'t': 'arr', 'a': [x if x is not None else y for x, y in zip(tw, v['a'])]} if any(x is not None for x in tw) else None
+    return None
+
+
+def with_twins(cases, every=4):
+    """cases plus, next to every few of them, the same call on values that compare and hash equal in Python"""
+    out = []
+    for n, c in enumerate(cases):
+        if n % every == 0:
+            tw = [twin_value(a) for a in c['args']]
+            if any(x is not None for x in tw):
+                twin = dict(c, args=[x if x is not None else a for x, a in zip(tw, c['args'])])
+                out.append([twin, c] if n % (2 * every) == 0 else [c, twin])
+                continue
+        out.append([c])
+    return out
+
+
+def observe(lib, cases, literal=True, checks=('value',), extra_env=None, ranges=False, twins=False):
     obs = []
     h = None
     # evaluated in a seeded random order: an answer must not depend on which call of its kind came first in the process
-    order = list(range(len(cases)))
-    random.Random(20260927 + len(cases)).shuffle(order)
-    for n in order:
-        c = cases[n]
+    groups = with_twins(cases) if twins else [[c] for c in cases]
+    random.Random(20260927 + len(cases)).shuffle(groups)
+    for c in (c for g in groups for c in g):
         f, args = c['f'], c['args']
         env = F.empty_env()
         if extra_env:
